@@ -67,7 +67,8 @@ def _stmt_paths(s, is_event) -> list[Path]:
         evs = []
         for p in inner:
             evs.extend(p.events)
-        out = [Path([("loop", e) for e in dict.fromkeys(evs)], "fall")]
+        head = _events_in(s.iter, is_event) if hasattr(s, "iter") else _events_in(s.test, is_event)
+        out = [Path(head + [("loop", e) for e in dict.fromkeys(evs)], "fall")]
         for p in inner:
             if p.exit in ("return", "raise"):
                 out.append(Path(p.events, p.exit, p.decisions, p.exit_node))
